@@ -213,4 +213,63 @@ theorem addMonthsLag_own_month (M : Int) (d : Nat) (hM : 0 ≤ M) (h1 : 1 ≤ d)
       rw [heq]; exact div_self (ne_of_gt hn)
     rw [hf, addMonthsLag_int M hM, heq]
 
+
+/-- the inverse law for every target date from 1970 on (no assumption on the start date) -/
+theorem addMonths_devLag_of_valid (p e : Date) (he : e.valid) (h70 : 1970 ≤ e.y) :
+    addMonths p (devLagMonths p e) = e := by
+  obtain ⟨h1, h2, h3, h4⟩ := (valid_iff e).mp he
+  rw [addMonths_eq_lag, finalLag_devLag]
+  have hM : 0 ≤ monthToId e := by unfold monthToId; omega
+  have hy := yearOf_monthToId he
+  have hm := monthOf_monthToId he
+  have := addMonthsLag_own_month (monthToId e) e.d hM h3 (by rw [hy, hm]; exact h4)
+  rw [hy, hm] at this
+  exact this
+
+/-- integer offsets: the result is day `day` of month `monthToId d + k` -/
+theorem addMonths_int_form (d : Date) (k : Int) (hv : d.valid) (h : 0 ≤ monthToId d + k) :
+    ∃ day : Nat, 1 ≤ day ∧ day ≤ dim (yearOf (monthToId d + k)) (monthOf (monthToId d + k)) ∧
+      (d.isMonthEnd → day = dim (yearOf (monthToId d + k)) (monthOf (monthToId d + k))) ∧
+      addMonths d ((k : Int) : Rat) = ⟨yearOf (monthToId d + k), monthOf (monthToId d + k), day⟩ := by
+  obtain ⟨h1, h2, h3, h4⟩ := (valid_iff d).mp hv
+  rw [addMonths_eq_lag, finalLag_int]
+  generalize hMdef : monthToId d + k = M at *
+  have hn : (0 : Rat) < (dim d.y d.m : Rat) := by exact_mod_cast dim_pos _ _
+  have hn' : (0 : Rat) < (dim (yearOf M) (monthOf M) : Rat) := by exact_mod_cast dim_pos _ _
+  rcases Nat.lt_or_eq_of_le h4 with hlt | heq
+  · -- not a month end: 0 < f < 1
+    have hd0 : (0 : Rat) < (d.d : Rat) := by exact_mod_cast h3
+    have hf0 : (0 : Rat) < (d.d : Rat) / (dim d.y d.m : Rat) := div_pos hd0 hn
+    have hf1 : (d.d : Rat) / (dim d.y d.m : Rat) < 1 := by rw [div_lt_one hn]; exact_mod_cast hlt
+    rw [addMonthsLag_frac M _ h hf0 hf1]
+    have b1 := dim_bounds d.y d.m
+    have b2 := dim_bounds (yearOf M) (monthOf M)
+    -- the day is at least 1: d/n * n' ≥ 28/31 > 1/2
+    have hge : (1 : Rat) / 2 < (d.d : Rat) / (dim d.y d.m : Rat) * (dim (yearOf M) (monthOf M) : Rat) := by
+      have h28 : (28 : Rat) ≤ (dim (yearOf M) (monthOf M) : Rat) := by exact_mod_cast b2.1
+      have h31 : (dim d.y d.m : Rat) ≤ 31 := by exact_mod_cast b1.2
+      have hd1 : (1 : Rat) ≤ (d.d : Rat) := by exact_mod_cast h3
+      rw [div_mul_eq_mul_div, lt_div_iff₀ hn]
+      nlinarith
+    have hle : (d.d : Rat) / (dim d.y d.m : Rat) * (dim (yearOf M) (monthOf M) : Rat)
+        ≤ (((dim (yearOf M) (monthOf M) : Nat) : Int) : Rat) := by
+      push_cast
+      have : (d.d : Rat) / (dim d.y d.m : Rat) * (dim (yearOf M) (monthOf M) : Rat)
+          ≤ 1 * (dim (yearOf M) (monthOf M) : Rat) :=
+        mul_le_mul_of_nonneg_right (le_of_lt hf1) (le_of_lt hn')
+      linarith
+    have r1 := roundHalfEven_ge_one hge
+    have r2 := roundHalfEven_le hle
+    generalize roundHalfEven ((d.d : Rat) / (dim d.y d.m : Rat) * (dim (yearOf M) (monthOf M) : Rat)) = day at r1 r2
+    refine ⟨day.toNat, by omega, by omega, ?_, ?_⟩
+    · intro hme
+      have : d.d = dim d.y d.m := by simpa [Date.isMonthEnd] using hme
+      omega
+    · have : (day == 0) = false := by simp; omega
+      simp [this]
+  · -- month end
+    have hf : (d.d : Rat) / (dim d.y d.m : Rat) = 1 := by rw [heq]; exact div_self (ne_of_gt hn)
+    rw [hf, addMonthsLag_int M h]
+    exact ⟨_, dim_pos _ _, Nat.le_refl _, fun _ => rfl, rfl⟩
+
 end Bermuda
